@@ -272,6 +272,31 @@ def run(c):
         for su in per_mode[mode]:
             mac_pairs(R, P.Recorded(su, rnd, "SSKS", False, lengths=[3, 40, 17]))
 
+    # ---- fixed stratum: every ordered pair of verification modes across a key switch on the same pair of Packetizers (after
+    #      the switch the receiver's own sending direction is still in the old mode): the untouched stream must be delivered,
+    #      one flipped bit in the payload / MAC of each later packet must be refused
+    by_mode = {}
+    for su in sorted(P.suites()):
+        by_mode.setdefault(P.mode_of(su), su)
+    for m1 in sorted(by_mode):
+        for m2 in sorted(by_mode):
+            if m1 == m2:
+                continue
+            s1, s2 = by_mode[m1], by_mode[m2]
+            rec = P.Recorded(s1, rnd, "SSKSS", False, lengths=[5, 33, 20, 7], later=[s2[:2] + (s1[2],)])
+            R.run(rec, [], [], "control")
+            switched = False
+            for i, p_ in enumerate(rec.pkts, 1):
+                if p_.kind != "data":
+                    switched = True
+                    continue
+                if not switched or not p_.raw:
+                    continue
+                for region in ("payload", "mac"):
+                    offs = offsets_in(rec, p_, region)
+                    if offs:
+                        R.run(rec, [("Flip", i, region)], [("FlipAt", i, (offs[len(offs) // 2], 0x01))], "mode-switch")
+
     # ---- TV 2: seeded multi-fault edits over all suites
     n_multi = 300 if c.quick else 3000
     all_suites = P.suites()
